@@ -165,6 +165,14 @@ def pre1970_ctime(ctx):
                 ctx.violation("find %s with a status-change time of -1.25 s: %s, expected %s" % (" ".join(args), "matched" if p.stdout else "no match", "a match" if want else "no match"),
                               {"property": "C15", "kind": "pre1970-ctime", "find_args": args, "matched": bool(p.stdout), "expected": want,
                                "explain": "both at full timestamp resolution: -2 s + 0.75 s, not -2 s - 0.75 s"})
+        # ... and the same time stamp can be printed: 1969-12-31 23:59:58.75 UTC
+        p = subprocess.run([fw.FIND, "mnt/cf", "-printf", "%C@|%CY\n"], stdout=subprocess.PIPE, stderr=subprocess.PIPE, cwd=d, env=dict(xc.ENV, TZ="UTC"), timeout=60)
+        ctx.count(("pre1970-ctime", "printf"), True, "pre1970-ctime")
+        if p.returncode != 0 or not p.stdout.startswith(b"-1.25") or not p.stdout.rstrip().endswith(b"|1969"):
+            ctx.violation("find mnt/cf -printf '%%C@|%%CY' with a status-change time of -1.25 s: exit %d, printed %r (%s); expected -1.25...|1969"
+                          % (p.returncode, p.stdout, p.stderr.decode("utf-8", "replace")[:120]),
+                          {"property": "C15", "kind": "pre1970-ctime", "find_args": ["mnt/cf", "-printf", "%C@|%CY"], "exit": p.returncode,
+                           "stdout": p.stdout.decode("utf-8", "replace"), "stderr": p.stderr.decode("utf-8", "replace")[:300]})
     finally:
         if mounted or os.path.ismount(mnt):
             sh("umount", mnt)
